@@ -4,6 +4,7 @@ package main
 
 import (
 	"bytes"
+	"strings"
 	"encoding/json"
 	"reflect"
 	"runtime"
@@ -42,6 +43,7 @@ func goid() int {
 type schedEv struct {
 	p     int
 	point string // yield point, or "done"
+	arg   string // the object a point concerns ("point@address" hooks), as a small number per execution
 }
 
 var schedMu sync.Mutex // one scheduled execution at a time per process (the hook is global)
@@ -74,6 +76,16 @@ func execSched(h *caseHdr, ev M, line []byte) any {
 	var gmu sync.Mutex
 	gids := map[int]int{}
 	hooks := []any{}
+	objs := map[string]int{} // addresses -> 1, 2, ... in order of first appearance (0 = the point has no object)
+	objID := func(a string) int {
+		if a == "" {
+			return 0
+		}
+		if _, ok := objs[a]; !ok {
+			objs[a] = len(objs) + 1
+		}
+		return objs[a]
+	}
 
 	plenc.SetVerifHook(func(point string) {
 		gmu.Lock()
@@ -82,7 +94,11 @@ func execSched(h *caseHdr, ev M, line []byte) any {
 		if !ok {
 			return // not one of ours (e.g. the preparation)
 		}
-		events <- schedEv{p, point}
+		arg := ""
+		if at := strings.IndexByte(point, '@'); at >= 0 {
+			point, arg = point[:at], point[at+1:]
+		}
+		events <- schedEv{p, point, arg}
 		<-ps[p].wake
 	})
 	defer plenc.SetVerifHook(nil)
@@ -136,7 +152,7 @@ func execSched(h *caseHdr, ev M, line []byte) any {
 			if panicked {
 				st.result["panic"], st.result["where"], st.result["msg"] = true, where, msg
 			}
-			events <- schedEv{i, "done"}
+			events <- schedEv{i, "done", ""}
 		}()
 	}
 	stuck := false
@@ -158,7 +174,7 @@ func execSched(h *caseHdr, ev M, line []byte) any {
 				} else {
 					ps[e.p].state = "parked"
 				}
-				hooks = append(hooks, M{"p": e.p, "point": e.point})
+				hooks = append(hooks, M{"p": e.p, "point": e.point, "arg": objID(e.arg)})
 				if e.p == p {
 					return
 				}
@@ -191,7 +207,7 @@ func execSched(h *caseHdr, ev M, line []byte) any {
 				} else {
 					ps[e.p].state = "parked"
 				}
-				hooks = append(hooks, M{"p": e.p, "point": e.point})
+				hooks = append(hooks, M{"p": e.p, "point": e.point, "arg": objID(e.arg)})
 			case <-time.After(30 * time.Millisecond):
 				return
 			}
